@@ -129,7 +129,8 @@ def model(term):
         raise common.Infra(f"driver rejected the translated jaxpr: {r}")
     return {"raises": r[1][0] == "raises", "handled": [int(i) for i in (r[1][1] if r[1][0] == "handled" else [])],
             "old_handled": [int(i) for i in r[2][1]], "old_escaped": [int(i) for i in r[2][2]],
-            "top_holds": [b == "T" for b in r[3]], "sites": [int(i) for i in r[4]]}
+            "top_holds": [b == "T" for b in r[3]], "sites": [int(i) for i in r[4]],
+            "site_inline": r[5] == "T", "inlined_sites": [int(i) for i in r[6]], "inlined_site_inline": r[7] == "T"}
 
 
 def walker_tie(ctx, which, jaxpr, m, walker, case):
@@ -285,6 +286,23 @@ def run_adev(ctx, n):
             walker_tie(ctx, "ADEV", jaxpr, m, walker, case)
         else:
             ctx.correspondence_break("Interp.holds vs the ADEV walker", "adev._holds_sample_site no longer exists", case)
+        # the real pre-pass (fix d3d169e) on the real jaxpr vs the model's `inlineCalls`: afterwards no inline-kind call in front of a
+        # site where the interpreter looks, and the same number of sites
+        prepass = getattr(A, "_eval_inlining_site_calls", None)
+        if prepass is not None:
+            import jax
+            cj = jax.make_jaxpr(mk())(x)
+            post = jax.make_jaxpr(lambda *a: prepass(cj.jaxpr, cj.consts, *a))(x).jaxpr
+            ids2 = []
+            m2 = model(translate(post, (pjax.adev_sample_p, pjax.sample_p), KINDS["adev"], ids2))
+            if m2["site_inline"] != m["inlined_site_inline"] or len(m2["sites"]) != len(m["inlined_sites"]):
+                ctx.correspondence_break("Interp.inlineCalls vs the ADEV pre-pass", f"after the real pre-pass: inline call in front of a site = {m2['site_inline']}, "
+                                         f"{len(m2['sites'])} sites; model: {m['inlined_site_inline']}, {len(m['inlined_sites'])} sites", case)
+            if (m2["old_handled"], m2["old_escaped"]) != (m["old_handled"], m["old_escaped"]) and len(m2["sites"]) == len(m["sites"]):
+                ctx.correspondence_break("Interp.inlineCalls_runOld vs the ADEV pre-pass", "the pre-pass changed which sites reach the interpreter", case)
+            ctx.count("interp:adev:prepass")
+        else:
+            ctx.correspondence_break("Interp.inlineCalls vs the ADEV pre-pass", "adev._eval_inlining_site_calls no longer exists", case)
         # exact: each site c contributes E[where(b,3,1) * p * c] = c (3 p^2 + (1-p) p); a scan body runs its sites once per
         # iteration but only iteration 0 is added; prim adds sin p
         f_exact = lambda q: _exact(ast, q)     # noqa: E731
